@@ -17,7 +17,7 @@ from harness.common.ctx import Timeout, time_limit
 from harness.props import c13 as base
 
 EXE = "c14_model"
-PROPS = ["Holpy.C14.Props", "Holpy.C14.Props2", "Holpy.C14.Props3"]
+PROPS = ["Holpy.C14.Props", "Holpy.C14.Props2", "Holpy.C14.Props3", "Holpy.C14.Props4", "Holpy.C14.Props5"]
 
 
 def ids(pos):
@@ -172,8 +172,130 @@ class Examiner:
             raise
         except Exception as e:  # noqa
             ctx.count("search:filter-stream-error:%s" % type(e).__name__)
+        try:
+            self.backward_stream(state, gp, fs)
+        except Timeout:
+            raise
+        except Exception as e:  # noqa
+            ctx.count("backward-stream-error:%s" % type(e).__name__)
+        try:
+            self.exists_stream(state, gp, fs)
+        except Timeout:
+            raise
+        except Exception as e:  # noqa
+            ctx.count("exists-stream-error:%s" % type(e).__name__)
         for r in res:
             self.test_suggestion(goal, trail, state, gp, r)
+
+    # ---------------------------------------------------------------- apply_backward_step.search against searchBackward
+    def backward_stream(self, state, gp, fs):
+        """Stream `search:backward`: the real apply_backward_step.search for this goal and this order of facts
+        against the model's enumeration (hint filter, refused / query / proof term, sorted by name); the outcome of
+        the tactic per theorem of the database is computed here by calling tactic.rule() as `apply` does."""
+        import re
+        from kernel import theory
+        from kernel.proofterm import ProofTerm
+        from logic import matcher, tactic
+        from server import method
+        rec = self.recorder
+        if rec is None:
+            return
+        self._bw = getattr(self, "_bw", 0) + 1
+        if self._bw % 7 != 1 or sum(1 for r in rec.search_records if r[0] == "search:backward") >= 120:
+            return
+        with time_limit(base.STEP_LIMIT * 2):
+            real = state.apply_search(ids(gp), method.get_all_methods()["apply_backward_step"], [ids(f) for f in fs])
+            cur = state.get_proof_item(gp)
+            prevs = [ProofTerm.atom(f, state.get_proof_item(f).th) for f in fs]
+            entries, plain = [], 0
+            for name in theory.thy.get_data("theorems"):
+                attrs = theory.thy.get_attributes(name)
+                hb, hb1 = "hint_backward" in attrs, "hint_backward1" in attrs
+                if not (hb or hb1):
+                    plain += 1
+                    if plain % 40 != 0:
+                        continue                  # a sample of the theorems without the attribute
+                if not re.match(r"^[A-Za-z_][A-Za-z0-9_]*$", name) or name in ("q", "r", "N", "T", "F"):
+                    return
+                try:
+                    pt = tactic.rule().get_proof_term(cur.th, args=name, prevs=list(prevs))
+                    out = [[rec.tcode(g.prop), []] for g in pt.gaps]
+                except theory.ParameterQueryException:
+                    out = "q"
+                except (AssertionError, matcher.MatchException):
+                    out = "r"
+                except Exception:  # noqa   any other failure escapes the real search as well
+                    return
+                entries.append([name, hb, hb1, out])
+        expect = [[r["theorem"], [[rec.tcode(p), []] for p in r["_goal"]] if "_goal" in r else "q"] for r in real]
+        rec.search_records.append(("search:backward", ["searchbackward", len(fs), entries], expect))
+
+    # ---------------------------------------------------------------- exists_elim.apply against existsElimM
+    EXISTS_MSGS = ("exists_elim", "exists_elim: id is not a gap", "exists_elim: cannot find intros at the end")
+
+    def exists_record(self, state, target, step, label):
+        """`exists_elim.apply` as the real code did it (target = the state afterwards, None = it failed with
+        one of its own assertions) against the model's existsElimM on the state before."""
+        from logic import logic
+        rec = self.recorder
+        if rec is None or sum(1 for r in rec.method_records if r[0].startswith("method:exists_elim")) >= 600:
+            return
+        gid = [int(x) for x in str(step["goal_id"]).split(".")]
+        fact = [int(x) for x in step["fact_ids"][0].split(".")]
+        prop = state.get_proof_item(tuple(fact)).th.prop
+        names = [n.strip() for n in step["names"].split(",")]
+        is_ex = bool(prop.is_exists())
+        vars_, body = logic.strip_exists(prop, names) if is_ex else ([], prop)
+        nv = len(vars_)
+        if target is not None:
+            at = lambda k: target.get_proof_item(tuple(gid[:-1] + [gid[-1] + k]))  # noqa
+            vths = [rec.th(at(k).th) for k in range(nv)]
+            ath = rec.th(at(nv).th)
+            expect = ["ok", rec.state(target)]
+        else:
+            vths, ath, expect = ["N"] * nv, "N", "error"
+        op = ["existselim", rec.state(state), gid, fact, is_ex, vths, ath, rec.tcode(body),
+              rec.rcode("assume"), rec.rcode("variable"), rec.rcode("intros")]
+        rec.method_records.append((label, op, expect))
+
+    def exists_stream(self, state, gp, fs):
+        """Adversarial calls of exists_elim (never through search): any single selected fact - an
+        existential or not -, on the gap and on a line that is not a gap, with one or two names."""
+        from kernel.proof import ProofStateException
+        from server import method
+        rec = self.recorder
+        if rec is None or len(fs) != 1:
+            return
+        done = [r[2] == "error" for r in rec.method_records if r[0] == "method:exists_elim:direct"]
+        is_ex = bool(state.get_proof_item(fs[0]).th.prop.is_exists())
+        if (not is_ex and sum(done) >= 100) or len(done) >= 500:
+            return                               # refusals for a fact of another shape: a sample is enough
+        lines = [gp]
+        other = [pos for pos, it in base.walk(state) if it.rule not in ("sorry", "subproof") and it.th is not None
+                 and base.visible(fs[0], pos)]
+        if other:
+            lines.append(other[len(rec.method_records) % len(other)])
+        for line in lines:
+            for names in ("zq8", "zq8, zq9"):
+                step = {"method_name": "exists_elim", "goal_id": ids(line), "fact_ids": [ids(fs[0])], "names": names}
+                tgt = copy.copy(state)
+                try:
+                    with time_limit(base.STEP_LIMIT):
+                        method.apply_method(tgt, copy.deepcopy(step))
+                except Timeout:
+                    continue
+                except AssertionError as e:
+                    if str(e) not in self.EXISTS_MSGS:
+                        self.ctx.count("exists-stream:other-refusal")
+                        continue                  # name clash / refusal by the re-check: not modelled
+                    tgt = None
+                except ProofStateException:
+                    tgt = None
+                except Exception as e:  # noqa
+                    self.ctx.count("exists-stream:other-failure:%s" % type(e).__name__)
+                    continue
+                self.ctx.count("exists-stream:%s" % ("ok" if tgt is not None else "refused"))
+                self.exists_record(state, tgt, step, "method:exists_elim:direct")
 
     # ---------------------------------------------------------------- search-side model (Holpy/C14/Model.lean, `Sel`)
     FILTER_METHODS = ["introduction", "exists_elim", "forall_elim", "inst_exists_goal"]
@@ -325,6 +447,11 @@ class Examiner:
             return
         ctx.count("apply:%s:ok" % name)
         self.advertised_vs_export(sugg, nrec)
+        if name == "exists_elim":
+            try:
+                self.exists_record(state, target, step, "method:exists_elim")
+            except Exception as e:  # noqa
+                ctx.count("exists-record-error:%s" % type(e).__name__)
         if sugg.get("_goal") or sugg.get("_fact"):
             ctx.sample({"goal": goal.ident(), "steps_so_far": len(trail), "suggestion": jsonable(sugg), "outcome": "ok"})
         if any(k.startswith("param_") and v != "" and k not in sugg for k, v in step.items()):
@@ -477,7 +604,7 @@ def run(ctx):
         "type-directed parameter guesses of harness/props/c13.py:fill_params"]
     ctx.assumptions += [
         "a failure after the harness supplied parameters that the method *asked for* (ParameterQueryException) is not counted: the guess may be at fault",
-        "search bodies are not modelled; the Lean theorem covers the splice (apply half) only",
+        "search bodies: only the enumeration of apply_backward_step.search is modelled (tactic outcome per theorem as data); the matcher is not",
         "z3 is never suggested by search (Z3Method.search returns []), z3wrapper.check_z3 = False during the run"]
     base.neutralise_z3(ctx)
     recorder = base.Recorder(ctx.scale(1500, 15000), every=ctx.scale(3, 2))
@@ -520,6 +647,29 @@ DIRECTED = [
      "steps": [{"method_name": "apply_backward_step", "goal_id": "1", "fact_ids": [], "theorem": "conjI"},
                {"method_name": "introduction", "goal_id": "2", "fact_ids": [], "names": ""}],
      "goal_id": "1", "facts": [["0"], []]},
+    # exists_elim (model existsElimM): nested quantifiers with fewer / as many / more names than binders, a second
+    # exists_elim in the same scope, a goal in front of a subproof line (its sequent is re-stated in place), a
+    # derived line between the goal and the closing intros line
+    {"name": "exists-elim-nested-binders", "theory": "logic", "vars": {"R": "'a => 'a => bool", "C": "bool"},
+     "prop": "(?x. ?y. R x y) --> C", "steps": [], "goal_id": "1", "facts": [["0"]]},
+    {"name": "exists-elim-second-in-scope", "theory": "logic", "vars": {"P": "'a => bool", "Q": "'a => bool", "C": "bool"},
+     "prop": "(?x. P x) --> (?x. Q x) --> C",
+     "steps": [{"method_name": "exists_elim", "goal_id": "2", "fact_ids": ["0"], "names": "u"}],
+     "goal_id": "4", "facts": [["1"], ["0"]]},
+    {"name": "exists-elim-in-front-of-subproof-line", "theory": "logic", "vars": {"P": "'a => bool", "A": "bool", "C": "bool"},
+     "prop": "(?x. P x) --> C & (A --> A | C)",
+     "steps": [{"method_name": "apply_backward_step", "goal_id": "1", "fact_ids": [], "theorem": "conjI"},
+               {"method_name": "introduction", "goal_id": "2", "fact_ids": [], "names": ""}],
+     "goal_id": "1", "facts": [["0"]]},
+    {"name": "exists-elim-earlier-gap-of-two", "theory": "logic", "vars": {"P": "'a => bool", "B": "bool", "C": "bool"},
+     "prop": "(?x. P x) --> B & C",
+     "steps": [{"method_name": "apply_backward_step", "goal_id": "1", "fact_ids": [], "theorem": "conjI"}],
+     "goal_id": "1", "facts": [["0"]]},
+    {"name": "exists-elim-inside-subproof", "theory": "logic", "vars": {"P": "'a => bool", "B": "bool", "C": "bool"},
+     "prop": "B & ((?x. P x) --> C)",
+     "steps": [{"method_name": "apply_backward_step", "goal_id": "0", "fact_ids": [], "theorem": "conjI"},
+               {"method_name": "introduction", "goal_id": "1", "fact_ids": [], "names": ""}],
+     "goal_id": "1.1", "facts": [["1.0"]]},
     {"name": "conditional-rewrite-with-and-without-its-condition", "theory": "logic", "vars": {"P": "bool", "a": "'a", "b": "'a"},
      "prop": "P --> (if P then a else b) = a", "steps": [], "goal_id": "1", "facts": [[], ["0"], []]},
 ]
@@ -679,8 +829,23 @@ MANIFEST = {
             "closed by an earlier line), advertised_eq_applied_revert_intro_partial (at most the re-stated gap is newly open; that the old "
             "statement is gone is not in the theorem), search_suggestions_apply_partial (for introduction, exists_elim, inst_exists_goal: a "
             "suggestion returned by the shape filter for a gap passes the assertions apply makes before it looks at a parameter; "
-            "forall_elim.apply asserts nothing on shape; searches that enumerate theorems are oracle-only). NOT modelled on the method "
-            "level: exists_elim.apply (it re-states the sequents of the following lines in place; oracle + C13's alias model only), "
+            "forall_elim.apply asserts nothing on shape), advertised_eq_applied_exists_elim (exists_elim.apply is modelled as "
+            "existsElimM: add_line_before, the variable/assume lines, the loop that re-states the sequents of the following lines in place "
+            "up to the closing intros line and extends its citations; compared with every real application of an exists_elim suggestion "
+            "and with direct calls on gaps / non-gaps / facts of other shapes / one or two names - streams method:exists_elim, "
+            "method:exists_elim:direct; theorem: for every class q of sequents the gaps in q afterwards are at most the earlier gaps in q "
+            "or brought into q by the new hypothesis, and for a class that ignores that hypothesis - a given proposition, any gap - the "
+            "number of gaps is exactly what it was: every open goal is kept, none is opened), "
+            "search_backward_suggestions_apply_partial (apply_backward_step.search as an enumeration of an abstract theorem database "
+            "- name, hint_backward, hint_backward1 - with the tactic as a function of the name with outcomes proof term / parameter "
+            "query / refused: every suggestion returned names a theorem the tactic does not refuse, one without _goal asks for "
+            "parameters, one with _goal = adv yields a term whose gaps are adv and applying it obeys the apply_backward_step law; "
+            "stream search:backward compares the real search for a goal and fact order with the model's enumeration - filter, sort by "
+            "name, query case - the outcome per theorem being computed by calling tactic.rule() the way apply does; partial: matcher "
+            "and instantiation are not modelled inside Lean, C09's first_order_match model is not connected). NOT modelled: the "
+            "`intros` arguments exists_elim writes (C13's alias model; the known finding recheck-fails:repeated-exists-elim is about the "
+            "pairing of those arguments with the citations inside intros_macro and cannot be stated in the structural model: no "
+            "counterexample theorem), rewrite_goal / rewrite_fact / apply_forward_step searches (oracle only), "
             "sorry/z3/other methods without suggestions of their own shape. NOT proved: that a vanished advertised gap went through find_goal / trivial (by "
             "construction of the model only), search bodies (a tactic is the list of its exported lines; search and apply evaluating the "
             "same term is the stream, not a theorem).",
